@@ -19,13 +19,15 @@ Admissible(ts, doc) == { OutcomeOf(c, doc) : c \in Compilations(ts) }
 
 \* from the text (code points, -1 = invalid UTF-8)
 AdmissibleText(s, doc) ==
-  LET l == Lex(s) IN IF ~l.ok THEN {Err("syntax")} ELSE Admissible(l.ts, doc)
+  \* a text that does not tokenise is a syntax error; a fault visible in the
+  \* tokens before the offending character may be reported instead
+  LET l == Lex(s) IN IF ~l.ok THEN {ErrS({"syntax"} \cup TokenFaults(l.ts))} ELSE Admissible(l.ts, doc)
 
 \* compile-time view: the set of admissible static outcomes ("ok" or classes)
 StaticOutcome(ts, m) == LET c == Compile(ts, m) IN IF c.ok THEN [ok |-> TRUE, cs |-> {}] ELSE [ok |-> FALSE, cs |-> c.cs]
 StaticAdmissible(ts) == { StaticOutcome(ts, m) : m \in Modes(ts) }
 StaticAdmissibleText(s) ==
-  LET l == Lex(s) IN IF ~l.ok THEN {[ok |-> FALSE, cs |-> {"syntax"}]} ELSE StaticAdmissible(l.ts)
+  LET l == Lex(s) IN IF ~l.ok THEN {[ok |-> FALSE, cs |-> {"syntax"} \cup TokenFaults(l.ts)]} ELSE StaticAdmissible(l.ts)
 
 \* does an actual outcome o (value / [t |-> "err", cs |-> {c}]) lie in the set?
 Admits(S, o) ==
